@@ -353,7 +353,7 @@ pub fn run(ctx: &Ctx) {
     }
     ctx.stats.lock().unwrap().phases.push(json!({"phase": "feature-off build", "result": "ok"}));
     ctx.replay_findings(&oracle);
-    for (class, total) in [("K", ctx.n(40_000, 1_000_000)), ("U", ctx.n(40_000, 1_000_000))] {
+    for (class, total) in [("K", ctx.n(60_000, 6_000_000)), ("U", ctx.n(60_000, 6_000_000))] {
         if ctx.failed() {
             break;
         }
